@@ -276,6 +276,15 @@ def coq_eval(name, body, timeout=900):
     open(p, "w").write(body)
     # large string literals need a deep parser stack
     rc, so, se, dt = run(["bash", "-c", "ulimit -s unlimited 2>/dev/null; exec timeout %d coqc -Q %s GV %s" % (timeout, COQ, p)], cwd=d, timeout=timeout + 30)
+    for ext in (".v", ".vo", ".vok", ".vos", ".glob"):      # the cases are regenerated on every run: do not let them pile up
+        try:
+            os.remove(os.path.join(d, name + ext))
+        except OSError:
+            pass
+    try:
+        os.remove(os.path.join(d, "." + name + ".aux"))
+    except OSError:
+        pass
     return rc == 0, so, se, dt
 
 
